@@ -38,3 +38,6 @@ print('empty ALPN                   :', raw_client([SignatureAlgorithmsExtension
 # 5. empty signature_algorithms in TLS 1.3 hello
 print('TLS1.3 empty sig_algs        :', raw_client([SupportedVersionsExtension().create([(3,4)]), empty(ExtensionType.signature_algorithms), SupportedGroupsExtension().create([GroupName.secp256r1]), ClientKeyShareExtension().create([])]))
 print('TLS1.3 empty sig_algs_cert   :', raw_client(base+[ClientKeyShareExtension().create([]), empty(ExtensionType.signature_algorithms_cert)]))
+# 7. TLS 1.2 ClientHello (no supported_versions) carrying an empty pre_shared_key extension, server has PSKs
+print('TLS1.2 hello + empty PSK ext :', raw_client([SignatureAlgorithmsExtension().create([(4,1)]), SupportedGroupsExtension().create([GroupName.secp256r1]),
+      empty(ExtensionType.pre_shared_key)], settings=s))
